@@ -31,6 +31,11 @@ theorem C02_ttv_kruskal [CommSemiring α] (K : Ktensor α) (pairs : List (Nat ×
       ∀ i, InBounds (MLK.kresShape r) i → MLK.kresGet r i = Spec.ttv K.den (pairs.map (·.1)) w i :=
   MLK.kruskal_ttvCore_spec K pairs hnd hlt hlen w hw
 
+/-- `ktensor.ttv` rejects a vector whose length is not the extent of its mode. -/
+theorem C02_ttv_kruskal_rejects [Add α] [Mul α] [Zero α] (K : Ktensor α) (pairs : List (Nat × List α))
+    (h : ∃ p ∈ pairs, p.2.length ≠ K.shape.getD p.1 0) : K.ttvCore pairs = .error .reject :=
+  MLK.kruskal_ttvCore_rejects K pairs h
+
 /-- `ktensor.ttv` as called with `dims` listed in any order and one vector per listed mode. -/
 theorem C02_ttv_kruskal_dims [CommSemiring α] (K : Ktensor α) (d : List Nat) (vs : List (List α))
     (hd : d.Nodup) (hN : ∀ x ∈ d, x < K.factors.length) (hl : vs.length = d.length)
@@ -117,6 +122,11 @@ theorem C02_ttv_tucker [CommSemiring α] (T : Ttensor α) (hT : ML.TuckerWF T) (
       ((∃ v, r = .scalar v) ↔ complDims T.factors.length (pairs.map (·.1)) = []) ∧
       ∀ i, InBounds (MLK.tresShape r) i → MLK.tresGet r i = Spec.ttv T.den (pairs.map (·.1)) w i :=
   MLK.tucker_ttvCore_spec T hT pairs hnd hlt hlen w hw
+
+/-- `ttensor.ttv` rejects a vector whose length is not the extent of its mode. -/
+theorem C02_ttv_tucker_rejects [Add α] [Mul α] [Zero α] (T : Ttensor α) (pairs : List (Nat × List α))
+    (h : ∃ p ∈ pairs, p.2.length ≠ T.shape.getD p.1 0) : T.ttvCore pairs = .error .reject :=
+  MLK.tucker_ttvCore_rejects T pairs h
 
 /-- `ttensor.ttv` as called with `dims` listed in any order and one vector per listed mode. -/
 theorem C02_ttv_tucker_dims [CommSemiring α] (T : Ttensor α) (hT : ML.TuckerWF T) (d : List Nat)
